@@ -557,3 +557,73 @@ func (rv resultVar) assigned(sub *Region, isSet func(ssa.Value) bool) (always, s
 	}
 	return always, sometimes
 }
+
+// ---------------------------------------------------------------- one object, many slots
+
+// sharedElementFindings: inside a loop, the address of ONE object (allocated before the loop: a variable hoisted out of
+// it, or a `for _, x := range` variable, which this module's Go version makes one variable per loop) is stored into a
+// container slot (map entry, slice element, appended element) on every iteration while the loop also writes the
+// object (a store to one of its fields, or a method/decoder called on it).  All slots then alias the last value.
+type sharedElem struct {
+	at     ssa.Instruction
+	obj    *ssa.Alloc
+	what   string
+	shared bool // false: the object is allocated inside the loop (a fresh one per slot)
+}
+
+func sharedElementFindings(fn *ssa.Function) []sharedElem {
+	var out []sharedElem
+	fi := Info(fn)
+	for _, l := range fi.Loops {
+		writes := func(obj *ssa.Alloc) bool {
+			for b := range l.Blocks {
+				for _, in := range b.Instrs {
+					switch x := in.(type) {
+					case *ssa.Store:
+						if x.Addr == ssa.Value(obj) {
+							return true
+						}
+						if ch := fieldChain(x.Addr); len(ch) > 0 && ch[0].base == ssa.Value(obj) {
+							return true
+						}
+					case *ssa.Call:
+						for _, a := range x.Call.Args {
+							if a == ssa.Value(obj) {
+								return true
+							}
+						}
+					}
+				}
+			}
+			return false
+		}
+		for b := range l.Blocks {
+			for _, in := range b.Instrs {
+				var v ssa.Value
+				what := ""
+				switch x := in.(type) {
+				case *ssa.MapUpdate:
+					v, what = x.Value, "a map entry"
+				case *ssa.Store:
+					if _, isElem := x.Addr.(*ssa.IndexAddr); isElem {
+						v, what = x.Val, "a slice element"
+					}
+				}
+				obj, ok := v.(*ssa.Alloc)
+				if !ok || fi.InnermostLoop(b) != l {
+					continue
+				}
+				if _, isPtr := obj.Type().Underlying().(*types.Pointer); !isPtr {
+					continue
+				}
+				if _, isStruct := obj.Type().Underlying().(*types.Pointer).Elem().Underlying().(*types.Struct); !isStruct {
+					continue
+				}
+				// allocated inside this loop or a loop nested in an enclosing one that contains the store: fresh per slot
+				fresh := l.Blocks[obj.Block()]
+				out = append(out, sharedElem{in, obj, what, !fresh && writes(obj)})
+			}
+		}
+	}
+	return out
+}
